@@ -129,12 +129,23 @@ func (env *c10Env) call(what string, f func()) *vlib.Failure {
 }
 
 func c10Run(c c10Case) *vlib.Failure {
+	defer SetInfoPtr(0)
+	f, _ := c10RunKeep(c)
+	return f
+}
+
+// c10RunKeep decodes one block and leaves it installed; it returns the
+// address the block was presented at.
+func c10RunKeep(c c10Case) (*vlib.Failure, uintptr) {
 	c = c10Normalise(c)
 	env, err := c10Place(c)
 	if err != nil {
 		panic("VERIF-HARNESS C10 cannot map guarded memory: " + err.Error())
 	}
-	defer SetInfoPtr(0)
+	return c10Queries(c, env), env.block.addr()
+}
+
+func c10Queries(c c10Case, env *c10Env) *vlib.Failure {
 	// A walk that never terminates cannot be recovered from inside the process.
 	watchdog := time.AfterFunc(c10Patience, func() {
 		vlib.Die("C10", c, vlib.Failf("a multiboot query did not return within %v (tag or entry walk that does not terminate)", c10Patience))
@@ -1014,4 +1025,127 @@ func FuzzVerifC10(f *testing.F) {
 		c := c10FromBytes(data)
 		vlib.Report(t, "C10", c, c10Run(c))
 	})
+}
+
+// ---------------------------------------------------------------------------
+// histories: several blocks presented one after the other at the SAME address
+// (the boot-information area being reused). "For every well-formed block the
+// kernel reports exactly what the block encodes" must hold for each of them,
+// whatever was decoded at that address before. The blocks of a history are
+// padded to a common size with a trailing tag of an unused type, so that every
+// one of them starts at the same address and still ends at the guard page. The
+// package's command-line cache is dropped before every query, as in the single
+// block check (its lifetime is not part of the statement).
+
+type c10History struct {
+	Blocks []c10Case `json:"blocks"`
+}
+
+const c10PadTagType = 21
+
+// c10Equalise returns normalised copies of the blocks, padded to one size.
+func c10Equalise(h c10History) []c10Case {
+	out := make([]c10Case, len(h.Blocks))
+	sizes := make([]int, len(h.Blocks))
+	max := 0
+	for i, b := range h.Blocks {
+		out[i] = c10Normalise(b)
+		sizes[i] = len(c10Encode(out[i], map[int]uint64{}).block)
+		if sizes[i] > max {
+			max = sizes[i]
+		}
+	}
+	for i := range out {
+		for diff := max - sizes[i]; diff > 0; {
+			n := diff
+			if n > 8+c10MaxRaw/8*8 {
+				n = 8 + c10MaxRaw/8*8
+			}
+			out[i].Tags = append(out[i].Tags, c10Tag{Kind: "raw", Type: c10PadTagType, Raw: make([]byte, n-8)})
+			diff -= n
+		}
+	}
+	return out
+}
+
+func c10RunHistory(h c10History) *vlib.Failure {
+	SetInfoPtr(0)
+	defer SetInfoPtr(0)
+	blocks := c10Equalise(h)
+	var at uintptr
+	for i, b := range blocks {
+		f, addr := c10RunKeep(b)
+		if i > 0 && addr != at {
+			panic(fmt.Sprintf("VERIF-HARNESS C10 history: block %d is not at the address of block 0 (sizes differ after padding)", i))
+		}
+		at = addr
+		if f != nil {
+			if i == 0 {
+				return vlib.Failf("block 0 of a history of %d: %s", len(blocks), f.Msg)
+			}
+			return vlib.Failf("block %d of a history of %d blocks presented at the same address one after the other: %s", i, len(blocks), f.Msg)
+		}
+	}
+	return nil
+}
+
+func c10GenHistory(t *rapid.T) c10History {
+	n := rapid.IntRange(2, 3).Draw(t, "nblocks")
+	var h c10History
+	for i := 0; i < n; i++ {
+		h.Blocks = append(h.Blocks, c10Normalise(c10GenCase(t)))
+	}
+	return h
+}
+
+func TestVerifC10History(t *testing.T) {
+	st := vlib.For("C10")
+	defer vlib.Flush()
+	rapid.Check(t, func(t *rapid.T) {
+		h := c10GenHistory(t)
+		for _, b := range h.Blocks {
+			if err := c10SelfCheck(b); err != nil {
+				t.Fatalf("VERIF-HARNESS C10 %v", err)
+			}
+		}
+		// non-trivial: a wanted tag type sits at different offsets (or is
+		// present in one block and absent in the next)
+		moved := false
+		labels := []string{fmt.Sprintf("history-of-%d", len(h.Blocks))}
+		for i := 1; i < len(h.Blocks); i++ {
+			for _, k := range []string{"cmdline", "mmap", "fb", "elf"} {
+				a, b := h.Blocks[i-1].first(k), h.Blocks[i].first(k)
+				if (a < 0) != (b < 0) {
+					moved = true
+					labels = append(labels, "history:"+k+"-appears-or-vanishes")
+				} else if a >= 0 && c10OffsetOf(h.Blocks[i-1], a) != c10OffsetOf(h.Blocks[i], b) {
+					moved = true
+					labels = append(labels, "history:"+k+"-moves")
+				}
+			}
+		}
+		st.Case(h, moved, c10Uniq(labels)...)
+		vlib.Report(t, "C10", h, c10RunHistory(h))
+	})
+}
+
+// c10OffsetOf is the byte offset of tag i inside the encoded block.
+func c10OffsetOf(c c10Case, i int) int {
+	off := 8
+	for k := 0; k < i; k++ {
+		off += (c10TagSize(c.Tags[k]) + 7) &^ 7
+	}
+	return off
+}
+
+func TestVerifC10HistoryReplay(t *testing.T) {
+	var h c10History
+	ok, err := vlib.LoadReplay(&h)
+	if !ok {
+		t.Skip("no replay requested")
+	}
+	if err != nil {
+		t.Fatalf("VERIF-HARNESS cannot load replay: %v", err)
+	}
+	vlib.Report(t, "C10", h, c10RunHistory(h))
 }
